@@ -229,7 +229,11 @@ func TestVerifCodec(t *testing.T) {
 			var err error
 			var arg interface{}
 			want := errors.New("verif: inner codec failure")
-			switch rng.Intn(4) {
+			switch rng.Intn(5) {
+			case 4:
+				// the real codec: a proto2 message with missing required fields is a
+				// marshalling error that comes with partial output
+				arg = &descriptorpb.UninterpretedOption{Name: []*descriptorpb.UninterpretedOption_NamePart{{}}}
 			case 0:
 				rec.failMsg = want
 				arg, _ = cdMessage(rng)
